@@ -167,4 +167,6 @@ Definition forest (bodies:list cbx) : list (tree cbx) :=
   map (buildT (length bodies) bodies) (filter (fun b => andb (Nat.eqb (c_par b) 0) (negb (Nat.eqb (c_idx b) 0))) bodies).
 Definition out_cbi (bodies:list cbx) : list (nat * USp) :=
   flat_map (fun t => map (fun xr => (c_idx (fst xr), snd xr)) (flatten (cbi c_l (fun x => bodyMk (c_body x)) t))) (forest bodies).
+Definition out_cbiG (bodies:list cbx) : list (nat * USp) :=
+  flat_map (fun t => map (fun xr => (c_idx (fst xr), snd xr)) (flatten (cbiG c_l (fun x => bodyMk (c_body x)) t))) (forest bodies).
 End M.
